@@ -310,6 +310,10 @@ func termVars(t *Term) map[int]bool {
 // use once the value it defines is mentioned: term id -> ids of those values.
 var axiomDefines = map[int][]int{}
 
+// axiomNeedsAll: congruence axioms (equal arguments give equal results) tie two
+// applications together; they are only of use when both results matter.
+var axiomNeedsAll = map[int]bool{}
+
 func registerDef(ax *Term, results ...*Term) {
 	if ax == nil || len(ax.args) == 0 {
 		return
@@ -342,10 +346,19 @@ func relevant(assume []*Term, goal *Term) []*Term {
 			vs := termVars(a)
 			hit := len(vs) == 0
 			if defs, isDef := axiomDefines[a.id]; isDef {
-				for _, d := range defs {
-					if seed[d] {
-						hit = true
-						break
+				if axiomNeedsAll[a.id] {
+					hit = true
+					for _, d := range defs {
+						if !seed[d] {
+							hit = false
+						}
+					}
+				} else {
+					for _, d := range defs {
+						if seed[d] {
+							hit = true
+							break
+						}
 					}
 				}
 			} else {
